@@ -34,6 +34,11 @@ CHECKS = {
    technique="deterministic simulation: seeded gate scheduler over the real Feed/SubscriptionScope goroutines (one release at a time, yield points inside Send/remove), exactly-once / count / common-order / no-delivery-after-unsubscribe checks over the recorded history",
    text="Seeded interleavings of Send / Subscribe / Unsubscribe / scope Close with slow and fast, buffered and unbuffered subscribers, including unsubscription while a send is blocked on that very subscriber. History oracles use definite (step-ordered) happens-before only: every value is delivered exactly once to each subscription established before the send began and not unsubscribed before it returned, never to dead subscriptions, never after Unsubscribe/Close returned (deliveries into buffers are observed as length changes at rest), Send's return value equals the observed deliveries, all subscribers see one common order, and every actor terminates once receivers drain (else deadlock).",
    note="Trusted: synctest quiescence, harness. Granularity: blocking points and the listed yield points, not every memory access (data races proper are outside this check)."),
+
+ "C13": dict(engine="schedsim", category="exploration", design_ref="§3 C13",
+   technique="deterministic simulation: simulator-owned ChainReader gates every batch-verification worker (seeded completion order, worker count, abort point), fake clock for the future-block rule, Byzantine header mutation judged by an independent reference implementation of the rules",
+   text="(a) Schedule: the real VerifyHeaders worker pool runs with each worker parked in its chain lookup; the simulator decides completion order, GOMAXPROCS (1/2/4/16), when results are read and when abort closes; for every schedule the results must match one-by-one VerifyHeader up to and including the first failure and no goroutine may remain. (b) Clock: header times are placed at now+13..+31 s of the fake clock. (c) Rules: VerifyHeader / VerifyUncles verdicts on boundary-lattice candidates around every fork height of the built-in and random schedules must equal a stand-alone reference (literal constants: divisors, minima, duration limits, reset blocks, 32-byte extra, 5000 / parent/1024 / 2^63-1 gas bounds).",
+   note="Trusted: synctest, harness, the reference rules (written from the statement; constants are literals, not imports). Fork schedules are prefix-closed and strictly ascending (the protocol fixes nothing for coinciding heights). Uncle-set rules beyond the individual uncle header and the InsertChain-level future-block queue are not yet covered."),
 }
 
 def main():
